@@ -12,7 +12,17 @@ def gen_pure(ctx):
         yield "epsv " + hx(PRE + b"(|||%d|)" % p)
     for p in list(range(65536, 65600)) + [70000, 99999, 100000, 2**32, 2**32 + 21, 2**64, 2**64 + 21, 10**30]:
         yield "epsv " + hx(PRE + b"(|||%d|)" % p)
-    ctx["scopes"].append("229 replies: all 65536 ports, values above the range")
+    # numbers that are in range only modulo a power of two: 2^k + v for every k in 8..80 and small / port-like v, with and
+    # without leading zeros (a wrapped accumulator would accept them)
+    WRAPS = [2**k + v for k in (8, 16, 24, 31, 32, 33, 48, 63, 64, 65, 72, 80) for v in (0, 1, 5, 21, 255, 2124, 6446, 65535)] + \
+            [18446744073709551620 + v for v in range(0, 60, 3)] + [18446744073709553740, 18446744073709551743, 36893488147419103232 + 2124]
+    for n in WRAPS:
+        yield "epsv " + hx(PRE + b"(|||%d|)" % n)
+        yield "epsv " + hx(PRE + b"(|||000%d|)" % n)
+        for pos in range(6):
+            f = [b"127", b"0", b"0", b"1", b"8", b"76"]; f[pos] = b"%d" % n
+            yield "pasv " + hx(PRE7 + b"(" + b",".join(f) + b")")
+    ctx["scopes"].append("229 replies: all 65536 ports, values above the range; 227 / 229 fields equal to 2^k + v (k up to 80) in every position")
     for d in range(0, 256):
         dd = bytes([d])
         if d in (10, 13):
